@@ -21,7 +21,7 @@ BOUNDS = ['history of length one with symbolic arguments (inductive step); N = 2
           'Riemann/Sedov/Guderley']
 OUTSIDE = ['"vary only within documented resolution" for the grid-dependent solvers (Mader dx, Sedov max(r), SDRZ table, Riemann '
            'internal grid): a numerical-accuracy statement', 'thread interleavings (ExactPack is single-threaded; interleaving of '
-           'calls is covered by the inductive step)', 'RMTV, Su-Olson, radiative shocks module state: see C18/C12 obligations and DESIGN.md']
+           'calls is covered by the inductive step)', 'Su-Olson and radiative-shock module state: see C18 / C12 obligations and DESIGN.md']
 ASSUMPTIONS = ['stub contracts: a root finder / integrator returns the same value when asked the same question twice on one path']
 META = {
     'level_text': ('Bounded relational symbolic check on the real code: symbolic pre-state / arbitrary symbolic earlier call or other '
@@ -262,6 +262,11 @@ def obligations(tier):
     # Guderley module globals
     for n in (2, 3):
         obs.append(PreState(n, Fraction(7, 5)))
+    # RMTV module globals (aval ... sigma): the C03.rmtv obligation pre-sets them to arbitrary symbols and claims independence
+    from . import C03
+    o = C03.RmtvEOS()
+    o.id = 'C06.state.rmtv'
+    obs.append(o)
     # batch clause: reuse the C05 schema obligations on N = 2 points (independence of the other points, order kept)
     from . import C05
     for o in C05.obligations(tier):
